@@ -29,9 +29,13 @@ Extensions(b) == { b \o Zeros(n) : n \in 1..4 } \cup { b \o Fill(n, 255) : n \in
 GrownFrames(b) == IF Len(b) < 4 THEN {} ELSE
   { SetLenField(b \o Fill(4 * n, x), Len(b) \div 4 - 1 + n) : n \in {1, 2}, x \in {0, 255} }
 
+\* the P bit set and the last octet looking like a padding count
+PaddingClaims(b) == IF Len(b) < 8 THEN {} ELSE
+  { [b EXCEPT ![1] = IF (b[1] \div 32) % 2 = 1 THEN b[1] ELSE b[1] + 32, ![Len(b)] = n] : n \in {0, 1, 2, 3, 4, 5, 8, 255} }
+
 FirstOrder(b) ==
   Truncations(b) \cup LenLies(b) \cup LenResized(b) \cup CountChanges(b) \cup PTChanges(b)
-  \cup VersionChanges(b) \cup PaddingFlip(b) \cup ByteChanges(b, 48) \cup Extensions(b) \cup GrownFrames(b)
+  \cup VersionChanges(b) \cup PaddingFlip(b) \cup PaddingClaims(b) \cup ByteChanges(b, 48) \cup Extensions(b) \cup GrownFrames(b)
 \* a cheaper family for second-order compositions
 Light(b) == Truncations(b) \cup LenLies(b) \cup CountChanges(b) \cup PaddingFlip(b) \cup GrownFrames(b)
 =============================================================================
